@@ -4,7 +4,10 @@ outcomes come from a real loopback listener that is up (accepts, healthy) or dow
 import itertools
 from .common import *
 
-SCRIPTS = ["none", "s:111", "s:011", "s:001", "s:000", "s:101", "s:110", "s:100", "s:010"]
+# per write of the cached connection: 1 success, 0 failure, p failure after a partial write (the peer took the first
+# third), c failure "use of closed network connection" (closed on this side)
+SCRIPTS = ["none", "s:111", "s:011", "s:001", "s:000", "s:101", "s:110", "s:100", "s:010",
+           "s:p11", "s:pp1", "s:c11", "s:cc1", "s:1p1", "s:1c1", "s:pc1"]
 
 def generate(seed, tier):
     g = Gen(seed)
